@@ -45,6 +45,7 @@ class CFG:
         self.exit = self._new("exit")       # normal return
         self.rexit = self._new("rexit")     # exceptional exit
         self._loops = []
+        self.back_edges = set()     # (from id, to id) edges that close a loop
         self._handlers = []         # stack of lists of handler-entry nodes
         body = body_nodoc(fn_node)
         self._index_parents(body, None, "body")
@@ -147,6 +148,8 @@ class CFG:
             self._loops.append({"head": it, "breaks": []})
             out = self._block(st.body, [(it, "T")])
             self._link(out, it)
+            for o in out:
+                self.back_edges.add(((o[0] if isinstance(o, tuple) else o).id, it.id))
             lp = self._loops.pop()
             res = []
             if st.orelse:
@@ -162,6 +165,8 @@ class CFG:
             self._loops.append({"head": t, "breaks": []})
             out = self._block(st.body, [(t, "T")])
             self._link(out, t)
+            for o in out:
+                self.back_edges.add(((o[0] if isinstance(o, tuple) else o).id, t.id))
             lp = self._loops.pop()
             res = []
             if st.orelse:
@@ -181,6 +186,7 @@ class CFG:
             self.stmt_node[id(st)] = n
             self._link(preds, n)
             self._edge(n, self._loops[-1]["head"])
+            self.back_edges.add((n.id, self._loops[-1]["head"].id))
             return []
         if isinstance(st, (ast.With, ast.AsyncWith)):
             n = self._new("with", st, st)
@@ -375,10 +381,11 @@ class CFG:
                     out.append((sub.target.id, "walrus", sub.value))
         return out
 
-    def reaching(self, restrict=None):
+    def reaching(self, restrict=None, forward_only=False):
         """IN sets: node id -> {name: frozenset(def node ids)}; def id -1 = parameter/free.
-        restrict: optional set of node ids the paths may use."""
-        key = None if restrict is None else frozenset(restrict)
+        restrict: optional set of node ids the paths may use.
+        forward_only: ignore loop back edges (definitions that arrive without going round a loop)."""
+        key = (None if restrict is None else frozenset(restrict), forward_only)
         if self._rd is None:
             self._rd = {}
         if key in self._rd:
@@ -397,6 +404,8 @@ class CFG:
             acc = {}
             for p in self.pred[i]:
                 if p not in allowed:
+                    continue
+                if forward_only and (p, i) in self.back_edges:
                     continue
                 for k, v in OUT[p].items():
                     acc[k] = acc.get(k, frozenset()) | v
